@@ -528,6 +528,9 @@ class Machine:
             # a Fock label with undeclared dimension
             return None
         arr = np.asarray(val)
+        if D == 1 and arr.shape == (1, 1):
+            # a one-dimensional space has a single state; scale/phase of the entry mean nothing
+            return np.ones((1, 1), complex) if abs(arr[0, 0]) > 1e-12 else np.zeros((1, 1), complex)
         if arr.shape == (D, 1) and D != 1:
             nrm = np.linalg.norm(arr)
             if nrm < 1e-12:
@@ -769,3 +772,235 @@ class _ScriptForcer:
         if not nz:
             return None
         return nz[int(self.script[k]) % len(nz)]
+
+
+# ----------------------------------------------------------------------------------------
+# generalised measurement (C09) and Fock resize (C10): added as methods of Machine
+# ----------------------------------------------------------------------------------------
+def _do_povm(self, st):
+    import itertools
+
+    import jax.numpy as jnp
+
+    w = self.w
+    targets = list(st["targets"])
+    destructive = bool(st.get("destructive", True))
+    self.require_live(targets)
+    if len(set(targets)) != len(targets):
+        raise Inapplicable("dup")
+    entry = st["entry"]
+    holder = self.entry_obj(entry, targets)
+    objs = [w.obj[t] for t in targets]
+    if entry == "state" and len(targets) != 1:
+        raise Inapplicable("arity")
+    if entry == "env" and len(targets) > 2:
+        raise Inapplicable("arity")
+    if entry == "env" and holder.measured:
+        raise Inapplicable("envelope measured")
+    pre = self.snap()
+    for t in targets:
+        if w.dim(t) != pre.dim_of(t):
+            raise Inapplicable("undeclared fock dimension")
+    dims = [pre.dim_of(t) for t in targets]
+    D = int(np.prod(dims))
+    if D > 24:
+        raise Inapplicable("operator too large")
+    ms = povm_ops(st["pseed"], D, st["nops"], st.get("projective", False))
+    jms = [jnp.array(m) for m in ms]
+    site = site_of(w, pre, targets, "ce" if entry.startswith("ce") else entry, "povm",
+                   dict(ntargets=len(targets), nops=len(ms), destructive=destructive, projective=bool(st.get("projective", False)),
+                        spread=len({pre.where[t] for t in targets})))
+    site["reps"] = "/".join(sorted({pre.block_of(t).rep for t in targets}))
+    site["storages"] = "/".join(sorted({pre.block_of(t).kind for t in targets}))
+    if entry == "state":
+        partial = bool(st.get("partial", False))
+        site["partial"] = partial
+        fn = lambda: objs[0].measure_POVM(jms, destructive=destructive, partial=partial)
+    else:
+        fn = lambda: holder.measure_POVM(jms, *objs, destructive=destructive)
+    SAMPLER.reset()
+    SAMPLER.forcer = _ScriptForcer(list(st.get("script", [])))
+    try:
+        try:
+            ret = libcall(fn)
+        finally:
+            SAMPLER.forcer = None
+    except LibRaised as e:
+        raise Tagged(["C09"], "raised", f"measure_POVM via {entry} on {targets} (destructive={destructive}) raised {e}", dict(site, sig=e.sig()))
+    log = list(SAMPLER.log)
+    post = self.post_snapshot(["C09"], site, "povm")
+    name_of = {id(s): n for n, s in w.subs}
+    if not (isinstance(ret, tuple) and len(ret) == 2 and isinstance(ret[1], dict)):
+        raise Tagged(["C09"], "return-shape", f"measure_POVM returned {ret!r}", dict(site, what="type"))
+    outcome, extra = int(ret[0]), {}
+    for kobj, v in ret[1].items():
+        if id(kobj) not in name_of:
+            raise Tagged(["C09"], "return-shape", "unknown object in the outcome dictionary", dict(site, what="foreign"))
+        extra[name_of[id(kobj)]] = int(v)
+    if not log or log[0]["n"] != len(ms):
+        raise Tagged(["C09"], "no-povm-draw", f"first random draw has {log[0]['n'] if log else 0} outcomes, expected {len(ms)}", dict(site, what="draw"))
+    if outcome != log[0]["chosen"]:
+        raise Tagged(["C09"], "returned-outcome", f"returned outcome {outcome} but the sampler chose {log[0]['chosen']}", dict(site, what="index"))
+    # ---- probabilities ----
+    tidx = [pre.names.index(t) for t in targets]
+    red = ref.ptrace(pre.rho, pre.dims, tidx)
+    want_p = np.array([float(np.real(np.trace(m @ red @ m.conj().T))) for m in ms])
+    got_p = np.asarray(log[0]["p"], float)
+    if np.min(got_p) < -1e-9 or not np.all(np.isfinite(got_p)):
+        raise Tagged(["C09"], "probabilities", f"probability vector {got_p.tolist()}", dict(site, what="negative"))
+    got_p = got_p / np.sum(got_p)
+    if np.max(np.abs(got_p - want_p)) > 1e-8:
+        raise Tagged(["C09"], "probabilities", f"measure_POVM via {entry} on {targets} (storage {site['storages']}/{site['reps']}): p = {np.round(got_p, 6).tolist()} but Tr(M rho M+) = {np.round(want_p, 6).tolist()}",
+                     dict(site, what="value"))
+    if want_p[outcome] <= 1e-10:
+        raise Tagged(["C09"], "zero-probability-outcome", "outcome of probability zero reported", dict(site, what="zero"))
+    # ---- fate of subsystems ----
+    dead_now = [n for n in pre.names if not self.live(n)]
+    partners = [w.partner(t) for t in targets if w.partner(t) is not None and w.partner(t) not in targets]
+    if not destructive:
+        if dead_now:
+            raise Tagged(["C09"], "destroyed-in-non-destructive", f"non-destructive measure_POVM via {entry} on {targets} destroyed {dead_now}", dict(site, what="destroyed"))
+    else:
+        must = [t for t in targets if w.kind[t] != "custom"]
+        miss = [t for t in must if self.live(t)]
+        if miss:
+            raise Tagged(["C09"], "not-destroyed", f"destructive measure_POVM left {miss} alive", dict(site, what="alive"))
+        wrong = [n for n in dead_now if n not in targets and n not in partners]
+        if wrong:
+            raise Tagged(["C09"], "wrongly-destroyed", f"measure_POVM destroyed {wrong}", dict(site, what="bystander"))
+    for n in extra:
+        if n not in partners:
+            raise Tagged(["C09"], "return-shape", f"outcome dictionary reports {n}, which is neither addressed nor an envelope partner", dict(site, what="keys"))
+    # ---- post state ----
+    m = ms[outcome]
+    after = ref.apply_op(pre.rho, pre.dims, tidx, m) / want_p[outcome]
+    names, dms = list(pre.names), list(pre.dims)
+    # reported projective outcomes of partners
+    cond_prob = 1.0
+    for n, v in extra.items():
+        if not (0 <= v < pre.dim_of(n)):
+            raise Tagged(["C09"], "return-shape", f"partner outcome {v} out of range", dict(site, what="range"))
+        after, dms2 = ref.project(after, dms, names.index(n), v)
+        pr = float(np.real(np.trace(after)))
+        if pr <= 1e-10:
+            raise Tagged(["C09"], "zero-probability-outcome", f"partner outcome {n}={v} has probability {pr:.2e}", dict(site, what="zero"))
+        after = after / pr
+        if n in post.names:  # measured non-destructively: stays, in its basis state
+            after = np.kron(after, ref.basis_rho(pre.dim_of(n), v))
+            names = [x for x in names if x != n] + [n]
+            dms = dms2 + [pre.dim_of(n)]
+        else:
+            names = [x for x in names if x != n]
+            dms = dms2
+    hidden = [n for n in names if n not in post.names]
+    for n in post.names:
+        if n not in names:
+            raise Tagged(["C09"], "live-set", f"{n} is live after the call but should not exist", dict(site, what="live"))
+    # hidden (destroyed, unreported) subsystems: traced out, or conditioned on some unreported projective outcome
+    cands = []
+    keep = [names.index(n) for n in post.names]
+    cands.append(("traced", ref.ptrace(after, dms, keep) if post.names else np.ones((1, 1), complex)))
+    hdims = [dms[names.index(h)] for h in hidden]
+    if hidden and int(np.prod(hdims)) <= 36:
+        for assign in itertools.product(*[range(d) for d in hdims]):
+            cur, cn, cd = after, list(names), list(dms)
+            ok = True
+            for h, v in zip(hidden, assign):
+                cur, cd = ref.project(cur, cd, cn.index(h), v)
+                cn = [x for x in cn if x != h]
+            pr = float(np.real(np.trace(cur)))
+            if pr <= 1e-10:
+                continue
+            cur = cur / pr
+            order = [cn.index(n) for n in post.names]
+            cur, _ = ref.permute(cur, cd, order) if order else (cur, cd)
+            cands.append((f"conditioned{assign}", cur))
+    pd = [dms[names.index(n)] for n in post.names]
+    best = None
+    for label, cand in cands:
+        cdm = [max(a_, b_) for a_, b_ in zip(pd, post.dims)]
+        td = ref.trace_distance(ref.pad(post.rho, post.dims, cdm), ref.pad(cand, pd, cdm)) if post.names else 0.0
+        if best is None or td < best[0]:
+            best = (td, label)
+    if best[0] > TOL_EXACT:
+        trg = float(np.real(np.trace(post.rho)))
+        raise Tagged(["C09"], "post-state", f"after measure_POVM via {entry} on {targets} (outcome {outcome}, destructive={destructive}, storage {site['storages']}/{site['reps']}) the state of {post.names} is {best[0]:.3e} "
+                     f"away from (MxI)rho(MxI)+/p (best candidate: {best[1]}; trace {trg:.6f})", dict(site, what="trace" if abs(trg - 1) > 1e-6 else "state"))
+    removed = [n for n in pre.names if n not in post.names]
+    self.invariants(pre, post, targets + [p_ for p_ in partners if p_ in extra or p_ in removed], site, allow_merge=len(targets) >= 2, removed=removed)
+    if not st.get("projective", False):
+        self.nontrivial = True
+    self.labels.append(f"povm:{site['entry']}/{site['storages']}/{site['reps']}/n={len(targets)}/d={destructive}")
+    return dict(outcome="measured", pre=pre, post=post, site=site)
+
+
+def _do_resize(self, st):
+    w = self.w
+    t = st["target"]
+    n = int(st["n"])
+    self.require_live([t])
+    if w.kind[t] != "fock":
+        raise Inapplicable("not a fock")
+    entry = st["entry"]
+    holder = self.entry_obj(entry, [t])
+    f = w.obj[t]
+    if entry == "state":
+        fn = lambda: f.resize(n)
+    elif entry == "env":
+        fn = lambda: holder.resize_fock(n)
+    else:
+        fn = lambda: holder.resize_fock(n, f)
+    pre = self.snap()
+    if w.dim(t) != pre.dim_of(t):
+        raise Inapplicable("undeclared fock dimension")
+    d0 = pre.dim_of(t)
+    idx = pre.names.index(t)
+    diag = ref.diag_marginal(pre.rho, pre.dims, idx)
+    beyond = float(np.sum(diag[n:])) if n < d0 else 0.0
+    top = int(np.nonzero(diag > 1e-15)[0][-1])
+    site = site_of(w, pre, [t], "ce" if entry.startswith("ce") else entry, "resize",
+                   dict(direction="up" if n > d0 else ("same" if n == d0 else "down"), edge=int(np.clip(n - (top + 1), -2, 2)), nonpositive=n < 1))
+    site["r5_trigger"] = bool(n < d0 and r5_trigger(pre, [t], [t]))
+    try:
+        ret = libcall(fn)
+    except LibRaised as e:
+        raise Tagged(["C10"], "raised", f"resize({n}) via {entry} on {t} (dimension {d0}, top occupied level {top}) raised {e}", dict(site, sig=e.sig()))
+    post = self.post_snapshot(["C10"], site, "resize")
+    d1 = w.dim(t)
+    if d1 != post.dim_of(t):
+        raise Tagged(["C10"], "dimension-mismatch", f"reported dimension {d1} but the stored Fock axis has length {post.dim_of(t)}", dict(site, what="dims"))
+    a, b, _ = align(pre, post, pre.names)
+    moved = ref.trace_distance(a, b)
+    if ret is True:
+        if n >= 1 and d1 != n:
+            raise Tagged(["C10"], "dimension-not-set", f"resize({n}) returned True but the dimension is {d1}", dict(site, what="dims"))
+        if beyond > 1e-9:
+            raise Tagged(["C10"], "population-lost", f"resize({n}) via {entry} on {t} (storage {site['storage']}/{site['rep']}) returned True although {beyond:.3e} of the population lies at or above level {n}", dict(site, what="lost"))
+        if moved > 1e-9:
+            raise Tagged(["C10"], "state-changed", f"successful resize({n}) moved the joint state by {moved:.3e}", dict(site, what="state"))
+    elif ret is False:
+        if d1 != d0:
+            raise Tagged(["C10", "C17"], "failed-but-changed", f"resize({n}) returned False but the dimension went {d0} -> {d1}", dict(site, what="dims"))
+        if moved > 1e-12:
+            raise Tagged(["C10", "C17"], "failed-but-changed", f"resize({n}) returned False but the joint state moved by {moved:.3e}", dict(site, what="state"))
+        if n > d0:
+            raise Tagged(["C10"], "grow-refused", f"resize({n}) upward from {d0} returned False", dict(site, what="refused"))
+    else:
+        raise Tagged(["C10"], "return-value", f"resize returned {ret!r}", dict(site, what="type"))
+    self.invariants(pre, post, [t], site, allow_merge=False)
+    if abs(n - (top + 1)) <= 1:
+        self.nontrivial = True
+    self.labels.append(f"resize:{site['entry']}/{site['storage']}/{site['rep']}/{site['direction']}/{'ok' if ret else 'refused'}")
+    return dict(outcome="resized" if ret else "refused", pre=pre, post=post, site=site)
+
+
+def _do_set_contraction(self, st):
+    from photon_weave.photon_weave import Config
+
+    Config().set_contraction(bool(st["value"]))
+    return dict(outcome="set")
+
+
+Machine.do_povm = _do_povm
+Machine.do_resize = _do_resize
+Machine.do_set_contraction = _do_set_contraction
